@@ -28,6 +28,9 @@ func checkC04(c *Ctx) {
 	c.Rule("R4.8", "BufferedWriteSyncer buffers whole writes", 3)
 
 	c19FileOpen(c, "R4.9")
+	c.Rule("R4.10", "combined syncers keep every sink they are given, in order; nothing points into a pooled object after its release", 2)
+	cKeepsAll(c, "R4.10", c.Func(CorePath, "NewMultiWriteSyncer"), "zapcore.NewMultiWriteSyncer", "ret(cores[0:0])")
+	c8UseAfterRelease(c, "R4.10", c8ReleaseFns(c))
 
 	// R4.1 (shares the decision procedure of R8.4)
 	{
